@@ -669,7 +669,7 @@ func ruleC15Dir(p *Prog, r *Result) {
 			switch x := v.(type) {
 			case *ssa.FieldAddr:
 				st := x.X.Type().Underlying().(*types.Pointer).Elem().Underlying().(*types.Struct)
-				return st.Field(x.Field).Name() + "." + walk(x.X)
+				return pinnedField(st, x.Field) + "." + walk(x.X)
 			case *ssa.Phi:
 				for _, e := range x.Edges {
 					if s := walk(e); s != "" {
